@@ -74,6 +74,14 @@ func c08Case(c *hx.Ctx, r *hx.RNG, idx int64) {
 				c.Count("walker_inf", 1)
 			}
 		}
+		if vm.sharedStorage() != "" {
+			c.Count("shared_storage_probed", 1)
+			if msg := vm.probeSharing(); msg != "" {
+				c.Violate("operand-modified", fmt.Sprintf("after step %d %s: %s; last steps: %v", i, d, msg, trace), "")
+				return
+			}
+		}
+		c.Count("storage_ownership_checks", 1)
 		// numerically equal values expose identical digits and exponent
 		if st.z >= 0 && st.post[st.z].Class == 1 {
 			a := st.post[st.z]
